@@ -1,135 +1,43 @@
 (* C13.D1 — rule_is_conjugation_G: every local update rule of the tableau is conjugation by the documented
    gate matrix (Gates/GateSpecs.v) at the corresponding half-integer exponent, for every global shift,
    over any commutative ring with i, 1/2, 1/sqrt2 (hence over C).  Finite check per rule: the products are
-   computed entrywise and closed by `ring`, as in Gates/GateProofs.v. *)
+   computed entrywise and closed by `ring`, as in Gates/GateProofs.v (pieces in TableauConj_*.v). *)
 From Coq Require Import Ring List ZArith Bool Arith Lia.
-From VF Require Import Base.RingOps Base.Mat Gates.GateSpecs Cliff.Tableau Cliff.TableauSem.
+From VF Require Import Base.RingOps Base.Mat Gates.GateSpecs Cliff.Tableau Cliff.TableauSem Cliff.TableauConjLemmas
+  Cliff.TableauConj_X Cliff.TableauConj_Y Cliff.TableauConj_Z Cliff.TableauConj_H Cliff.TableauConj_CZ0 Cliff.TableauConj_CZ2 Cliff.TableauConj_CZ4 Cliff.TableauConj_CZ6 Cliff.TableauConj_CX0 Cliff.TableauConj_CX2 Cliff.TableauConj_CX4 Cliff.TableauConj_CX6 Cliff.TableauConj_SWAP0 Cliff.TableauConj_SWAP2 Cliff.TableauConj_SWAP4 Cliff.TableauConj_SWAP6.
 Import ListNotations.
 
 Section Conj.
   Context {K : Type} (O : Ops K) (L : Laws O).
-  Add Ring Kring : (law_ring O L).
-  Infix "+" := (kadd O). Infix "*" := (kmul O). Infix "-" := (ksub O).
-  Notation "- a" := (kopp O a).
-  Notation z0 := (k0 O). Notation z1 := (k1 O). Notation hf := (khalf O). Notation ii := (ki O). Notation s2 := (ks2 O).
-
-  Lemma half2 : (z1 + z1) * hf = z1.
-  Proof. transitivity (hf + hf); [ring | exact (law_half O L)]. Qed.
-  Lemma ii2 : ii * ii = - z1. Proof. exact (law_i O L). Qed.
-  Lemma s22 : s2 * s2 = hf. Proof. exact (law_s2 O L). Qed.
-  Lemma cancel2 a b : (z1 + z1) * a = (z1 + z1) * b -> a = b.
-  Proof. intros H. transitivity (hf * ((z1 + z1) * a)); [ring [half2]|]. rewrite H. ring [half2]. Qed.
-
-  (* zeta is a unit with inverse zetac, and has order dividing 8 *)
-  Lemma zeta_unit : zeta O * zetac O = z1.
-  Proof. unfold zeta, zetac. apply cancel2. ring [ii2 half2 s22]. Qed.
-  Lemma zeta_8 : kpow O (zeta O) 8 = z1.
-  Proof. cbv -[kadd kmul kopp ksub kconj k0 k1 ki khalf ks2]. do 4 apply cancel2. ring [ii2 half2 s22]. Qed.
-
-  (* closed forms of the powers of zeta, so that the entries stay small *)
-  Definition zs (e : nat) : K :=
-    match e with
-    | 0 => z1 | 1 => zeta O | 2 => ii | 3 => ii * zeta O
-    | 4 => - z1 | 5 => - zeta O | 6 => - ii | _ => - (ii * zeta O)
-    end.
-  Definition zsc (e : nat) : K :=
-    match e with
-    | 0 => z1 | 1 => zetac O | 2 => - ii | 3 => - (ii * zetac O)
-    | 4 => - z1 | 5 => - zetac O | 6 => ii | _ => ii * zetac O
-    end.
-  Lemma kpow_zeta : forall e, e < 8 -> kpow O (zeta O) e = zs e /\ kpow O (zetac O) e = zsc e.
-  Proof.
-    intros e He. do 8 (destruct e as [|e]; [split; cbv -[kadd kmul kopp ksub kconj k0 k1 ki khalf ks2];
-      first [ring [ii2 half2 s22] | apply cancel2; ring [ii2 half2 s22] | do 2 apply cancel2; ring [ii2 half2 s22]
-            | do 3 apply cancel2; ring [ii2 half2 s22] | do 4 apply cancel2; ring [ii2 half2 s22]]|]).
-    exfalso; lia.
-  Qed.
-
-  (* cos(pi e/4), sin(pi e/4) as GateSpecs computes them from the unit zeta^e *)
-  Definition cs (e : nat) : K :=
-    match e with 0 => z1 | 1 => s2 | 2 => z0 | 3 => - s2 | 4 => - z1 | 5 => - s2 | 6 => z0 | _ => s2 end.
-  Definition sn (e : nat) : K :=
-    match e with 0 => z0 | 1 => s2 | 2 => z1 | 3 => s2 | 4 => z0 | 5 => - s2 | 6 => - z1 | _ => - s2 end.
-  Ltac small := first [ring [ii2 half2 s22] | apply cancel2; ring [ii2 half2 s22] | do 2 apply cancel2; ring [ii2 half2 s22]
-                      | do 3 apply cancel2; ring [ii2 half2 s22]].
-  Lemma cos_sin_zs : forall e, e < 8 ->
-    (cosu O (zs e) (zsc e) = cs e /\ sinu O (zs e) (zsc e) = sn e) /\
-    (cosu O (zsc e) (zs e) = cs e /\ sinu O (zsc e) (zs e) = - sn e).
-  Proof.
-    intros e He. do 8 (destruct e as [|e]; [repeat split; cbv -[kadd kmul kopp ksub kconj k0 k1 ki khalf ks2]; small|]).
-    exfalso; lia.
-  Qed.
-
   Variables g gc : K.
-  Hypothesis U : g * gc = z1.
+  Hypothesis U : kmul O g gc = k1 O.
 
-  Ltac split_list :=
-    repeat match goal with
-           | |- (_ :: _) = (_ :: _) => apply (f_equal2 cons)
-           | |- @nil _ = @nil _ => reflexivity
-           end.
-  Ltac fin := first [ ring | ring [U ii2 half2 s22]
-          | apply cancel2; ring [U ii2 half2 s22]
-          | do 2 apply cancel2; ring [U ii2 half2 s22]
-          | do 3 apply cancel2; ring [U ii2 half2 s22]
-          | do 4 apply cancel2; ring [U ii2 half2 s22] ].
-  Ltac mat_eq := cbv -[kadd kmul kopp ksub kconj k0 k1 ki khalf ks2]; split_list; fin.
-  (* replace zeta^e and the cos/sin built from it by their closed forms, then compute *)
-  Ltac gate_eq e :=
-    unfold gate_x, gate_y, gate_z, gate_h, gate_cz, gate_cx, gate_swap,
-           gate_x_inv, gate_y_inv, gate_z_inv, gate_h_inv, gate_cz_inv, gate_cx_inv, gate_swap_inv,
-           spec_CXPow, spec_CZPow, spec_SwapPow, spec_XPow, spec_YPow, spec_ZPow, spec_HPow;
-    rewrite (proj1 (kpow_zeta e ltac:(lia))), (proj2 (kpow_zeta e ltac:(lia)));
-    cbv zeta;
-    rewrite ?(proj1 (proj1 (cos_sin_zs e ltac:(lia)))), ?(proj2 (proj1 (cos_sin_zs e ltac:(lia)))),
-            ?(proj1 (proj2 (cos_sin_zs e ltac:(lia)))), ?(proj2 (proj2 (cos_sin_zs e ltac:(lia))));
-    repeat split; try (intros p; first [destruct p as [[[|] [|]] [|]] | destruct p as [[[[[|] [|]] [|]] [|]] [|]]]); mat_eq.
-  (* what is proved of a gate G with claimed inverse Ginv and local rule f: G P = f(P) G, G P Ginv = f(P), G Ginv = 1 *)
-  Definition conj1_ok (G Ginv : matrix) (f : loc1 -> loc1) : Prop :=
-    (forall p, mmul O G (pms1 O p) = mmul O (pms1 O (f p)) G) /\
-    (forall p, mmul O (mmul O G (pms1 O p)) Ginv = pms1 O (f p)) /\
-    mmul O G Ginv = mid O 2.
-  Definition conj2_ok (G Ginv : matrix) (f : loc2 -> loc2) : Prop :=
-    (forall p, mmul O G (pms2 O p) = mmul O (pms2 O (f p)) G) /\
-    (forall p, mmul O (mmul O G (pms2 O p)) Ginv = pms2 O (f p)) /\
-    mmul O G Ginv = mid O 4.
-
-  Theorem rule_is_conjugation_X : forall e, e < 8 -> conj1_ok (gate_x O e g) (gate_x_inv O e gc) (rule_x (eff e)).
-  Proof.
-    intros e He. assert (H8 := He). do 8 (destruct e as [|e]; [match goal with |- conj1_ok (_ _ ?n _) _ _ => gate_eq n end|]). exfalso; lia.
-  Qed.
-  Theorem rule_is_conjugation_Y : forall e, e < 8 -> conj1_ok (gate_y O e g) (gate_y_inv O e gc) (rule_y (eff e)).
-  Proof.
-    intros e He. assert (H8 := He). do 8 (destruct e as [|e]; [match goal with |- conj1_ok (_ _ ?n _) _ _ => gate_eq n end|]). exfalso; lia.
-  Qed.
-  Theorem rule_is_conjugation_Z : forall e, e < 8 -> conj1_ok (gate_z O e g) (gate_z_inv O e gc) (rule_z (eff e)).
-  Proof.
-    intros e He. assert (H8 := He). do 8 (destruct e as [|e]; [match goal with |- conj1_ok (_ _ ?n _) _ _ => gate_eq n end|]). exfalso; lia.
-  Qed.
+  Theorem rule_is_conjugation_X : forall e, e < 8 -> conj1_ok O (gate_x O e g) (gate_x_inv O e gc) (rule_x (eff e)).
+  Proof. exact (conj_X O L g gc U). Qed.
+  Theorem rule_is_conjugation_Y : forall e, e < 8 -> conj1_ok O (gate_y O e g) (gate_y_inv O e gc) (rule_y (eff e)).
+  Proof. exact (conj_Y O L g gc U). Qed.
+  Theorem rule_is_conjugation_Z : forall e, e < 8 -> conj1_ok O (gate_z O e g) (gate_z_inv O e gc) (rule_z (eff e)).
+  Proof. exact (conj_Z O L g gc U). Qed.
   (* integer exponents t = e/2, e in {0,2,4,6}: the rule is applied iff t is odd *)
-  Definition evens : list nat := [0; 2; 4; 6].
   Theorem rule_is_conjugation_H : forall e, In e evens ->
-    conj1_ok (gate_h O e g) (gate_h_inv O e gc) (fun p => if odd_e e then rule_h p else p).
-  Proof.
-    intros e He. simpl in He.
-    repeat (destruct He as [<-|He]; [match goal with |- conj1_ok (_ _ ?n _) _ _ => gate_eq n end|]). destruct He.
-  Qed.
+    conj1_ok O (gate_h O e g) (gate_h_inv O e gc) (fun p => if odd_e e then rule_h p else p).
+  Proof. exact (conj_H O L g gc U). Qed.
   Theorem rule_is_conjugation_CZ : forall e, In e evens ->
-    conj2_ok (gate_cz O e g) (gate_cz_inv O e gc) (fun p => if odd_e e then rule_cz p else p).
+    conj2_ok O (gate_cz O e g) (gate_cz_inv O e gc) (fun p => if odd_e e then rule_cz p else p).
   Proof.
-    intros e He. simpl in He.
-    repeat (destruct He as [<-|He]; [match goal with |- conj2_ok (_ _ ?n _) _ _ => gate_eq n end|]). destruct He.
+    intros e He. simpl in He. destruct He as [<-|[<-|[<-|[<-|[]]]]];
+      [exact (conj_CZ0 O L g gc U)|exact (conj_CZ2 O L g gc U)|exact (conj_CZ4 O L g gc U)|exact (conj_CZ6 O L g gc U)].
   Qed.
   Theorem rule_is_conjugation_CX : forall e, In e evens ->
-    conj2_ok (gate_cx O e g) (gate_cx_inv O e gc) (fun p => if odd_e e then rule_cx p else p).
+    conj2_ok O (gate_cx O e g) (gate_cx_inv O e gc) (fun p => if odd_e e then rule_cx p else p).
   Proof.
-    intros e He. simpl in He.
-    repeat (destruct He as [<-|He]; [match goal with |- conj2_ok (_ _ ?n _) _ _ => gate_eq n end|]). destruct He.
+    intros e He. simpl in He. destruct He as [<-|[<-|[<-|[<-|[]]]]];
+      [exact (conj_CX0 O L g gc U)|exact (conj_CX2 O L g gc U)|exact (conj_CX4 O L g gc U)|exact (conj_CX6 O L g gc U)].
   Qed.
   Theorem rule_is_conjugation_SWAP : forall e, In e evens ->
-    conj2_ok (gate_swap O e g) (gate_swap_inv O e gc) (rule_swap (odd_e e)).
+    conj2_ok O (gate_swap O e g) (gate_swap_inv O e gc) (rule_swap (odd_e e)).
   Proof.
-    intros e He. simpl in He.
-    repeat (destruct He as [<-|He]; [match goal with |- conj2_ok (_ _ ?n _) _ _ => gate_eq n end|]). destruct He.
+    intros e He. simpl in He. destruct He as [<-|[<-|[<-|[<-|[]]]]];
+      [exact (conj_SWAP0 O L g gc U)|exact (conj_SWAP2 O L g gc U)|exact (conj_SWAP4 O L g gc U)|exact (conj_SWAP6 O L g gc U)].
   Qed.
 End Conj.
